@@ -16,6 +16,7 @@ var registry = map[string]func(*core.Run){
 	"C09": checks.C09,
 	"C10": checks.C10,
 	"C11": checks.C11,
+	"C12": checks.C12,
 	"C13": checks.C13,
 	"C14": checks.C14,
 	"C16": checks.C16,
